@@ -4,6 +4,7 @@
 (* returns [ok, msg].                                                            *)
 EXTENDS Integers, Sequences, Bytes
 CONSTANTS E(_, _)
+LOCAL INSTANCE SequencesExt      \* FoldLeft: iterative (deep RECURSIVE loops are quadratic in TLC)
 G == INSTANCE GF2
 BS == 16
 PadZ(s) == s \o Zeros((BS - (Len(s) % BS)) % BS)
@@ -43,10 +44,8 @@ B0(n, plen, alen, t) == <<(IF alen > 0 THEN 64 ELSE 0) + 8 * ((t - 2) \div 2) + 
 AadEnc(a) == IF Len(a) = 0 THEN <<>>
              ELSE IF Len(a) < 65280 THEN I2OSP(Len(a), 2) \o a
              ELSE <<255, 254>> \o I2OSP(Len(a), 4) \o a
-RECURSIVE CbcMacFrom(_, _, _, _)
-CbcMacFrom(k, y, s, i) == IF 16 * i > Len(s) THEN y
-                          ELSE CbcMacFrom(k, E(k, BXor(y, SubSeq(s, 16 * i - 15, 16 * i))), s, i + 1)
-CcmT(k, n, p, a, t) == Take(CbcMacFrom(k, Zeros(16), B0(n, Len(p), Len(a), t) \o PadZ(AadEnc(a)) \o PadZ(p), 1), t)
+CbcMacOver(k, s) == FoldLeft(LAMBDA y, i : E(k, BXor(y, SubSeq(s, 16 * i - 15, 16 * i))), Zeros(16), [i \in 1..(Len(s) \div 16) |-> i])
+CcmT(k, n, p, a, t) == Take(CbcMacOver(k, B0(n, Len(p), Len(a), t) \o PadZ(AadEnc(a)) \o PadZ(p)), t)
 CcmCtr(n, i) == <<Q(n) - 1>> \o n \o LenQ(i, Q(n))
 RECURSIVE CcmStream(_, _, _, _)
 CcmStream(k, n, i, cnt) == IF cnt = 0 THEN <<>> ELSE E(k, CcmCtr(n, i)) \o CcmStream(k, n, i + 1, cnt - 1)
